@@ -38,18 +38,20 @@ def trace_stage(ctx, fs_prop="C01", h_prop="C02", closed_prop="C17", sub_prop="C
     ctx.cov["checker_cmd"].append(" ".join(cmd) + " ; tlc -config FSTrace.cfg FSTrace.tla")
     ctx.cov["stages"].append({"stage": "trace-fstest", "file_systems_traced": int(m.group(1)), "records_checked_by_tlc": int(m.group(2)),
                               "dropped_because_calls_overlapped": int(m.group(3)), "rejected_records": len(rejects), "spec_branches_taken": nb,
-                              "bases": ["mem", "kvplain", "os (reference)", "Sub view of mem", "Sub of Sub of os.FS"], "suite_failures_seen": suite_failed})
+                              "bases": ["mem", "kvplain", "hackpadfs os.FS", "the os package (reference)", "Sub view of mem", "Sub of Sub of os.FS"], "suite_failures_seen": suite_failed})
     if len(ctx.cov["samples"]) < 4 and len(recs) > 12:
         ctx.cov["samples"].append({"trace": recs[0][:200], "records": [x[:160] for x in recs[1:6]], "verdict": "every record explained by FSCore!Eval / Handles!Eval"})
     ctx.cov["exhaustive"] = False
     # what the plain file systems themselves do differently from the specification is not the Sub view's doing
     plain = set((op, b, exp, got) for tid, idx, kind, op, b, exp, got in rejects if not info.get(int(tid), ("?", "?"))[1].startswith("sub"))
+    # what the os package itself does differently from the specification is a specification error, also where hackpadfs os.FS shows it
+    truth = set((op, b, exp, got) for tid, idx, kind, op, b, exp, got in rejects if info.get(int(tid), ("?", "?"))[1] == "rawos")
     for tid, idx, kind, op, b, exp, got in rejects:
         name, base = info.get(int(tid), ("?", "?"))
         if base.startswith("sub") and (op, b, exp, got) in plain:
             continue
         prop = fs_prop if kind == "fs" else (closed_prop if "/closed" in b else h_prop)
-        if base == "os":
+        if base == "rawos" or (base in ("os", "subos") and (op, b, exp, got) in truth):
             prop = "SPEC"
         elif base.startswith("sub"):
             prop = sub_prop   # the view of a directory behaves like a file system of its own
